@@ -155,9 +155,64 @@ Proof. exact msg_spec_b_iff. Qed.
 Print Assumptions c03_message_reflect.
 
 Theorem c03_holds_reflect :
-  forall c, holds c = true <-> seq_spec (msg_spec icert_of isign iblank) (c_md c) (c_only c) (c_ops c) (c_outs c).
+  forall c, holds c = true <->
+            seq_spec (msg_spec icert_of isign iblank) (c_md c) (c_only c) (c_ops c) (c_outs c) /\ confined_calls (c_calls c).
 Proof. exact holds_iff. Qed.
 Print Assumptions c03_holds_reflect.
+
+(* ---- the verifier (xmlsec1 as invoked by CryptoBackendXmlSec1.validate_signature / _run_xmlsec) ---- *)
+(* with the command line the code builds -- confined to the certificate file for EVERY version, --lax-key-search
+   from 1.3 on -- the binary of any version decides exactly `verify c` for the file c it is handed, whatever key
+   material (X509Certificate, bare RSAKeyValue) the message carries: c03_trust holds with the real verifier *)
+Theorem c03_engine_as_invoked :
+  forall (cert msg sig : Type) (verify : cert -> msg -> sig -> bool) (v : version) (carried : list cert)
+         (c : cert) (mm : msg) (ss : sig),
+    engine verify v (verify_cmdline v) carried c mm ss = verify c mm ss.
+Proof. exact engine_as_invoked. Qed.
+Print Assumptions c03_engine_as_invoked.
+
+Theorem c03_trust_any_xmlsec1 :
+  forall (key cert msg sig : Type) (cert_of : key -> cert) (sign : key -> msg -> sig) (verify : cert -> msg -> sig -> bool)
+         (readable blank : cert -> bool),
+    (forall c mm ss, verify c mm ss = true <-> exists k, c = cert_of k /\ ss = sign k mm) ->
+    (forall k k' mm, sign k mm = sign k' mm -> k = k') ->
+    (forall c mm ss, verify c mm ss = true -> readable c = true) ->
+    forall (v : version) (carried : list cert) (x : input cert msg sig),
+      spec cert_of sign blank x (accept (engine verify v (verify_cmdline v) carried) readable blank x).
+Proof. exact trust_holds_engine. Qed.
+Print Assumptions c03_trust_any_xmlsec1.
+
+(* the confinement is necessary: on a command line without it a message signed with an unknown key that it
+   carries as a bare RSAKeyValue is accepted in the issuer's name under the default flag, although the certificate
+   selection handed over the issuer's metadata certificate only *)
+Theorem c03_unconfined_unsound :
+  exists v x carried,
+    only_md x = true /\
+    accept (engine iverify v unconfined_cmdline carried) ireadable iblank x = (true, [Gd 1]) /\
+    ~ sound icert_of isign iblank x (accept (engine iverify v unconfined_cmdline carried) ireadable iblank x).
+Proof. exact unconfined_engine_unsound. Qed.
+Print Assumptions c03_unconfined_unsound.
+
+(* from 1.3 on a confined verifier without --lax-key-search refuses everything (the binary does not fall back to
+   the file's key): the option _run_xmlsec adds is needed for completeness *)
+Theorem c03_engine_strict_refuses :
+  forall (cert msg sig : Type) (verify : cert -> msg -> sig -> bool) (v : version) (carried : list cert)
+         (c : cert) (mm : msg) (ss : sig),
+    ge_1_3 v = true ->
+    engine verify v {| key_data_confined := true; lax_key_search := false |} carried c mm ss = false.
+Proof. exact engine_strict_refuses. Qed.
+Print Assumptions c03_engine_strict_refuses.
+
+(* the long-lived receiver remembers nothing but the loaded metadata: operations that are no verification and no
+   reload -- certificates looked up for another purpose (any entity, any use), a replaced xmlsec1 binary -- can be
+   inserted anywhere in a life without changing the outcome of any verification *)
+Theorem c03_receiver_readonly_ops :
+  forall (cert msg sig : Type) (verify : cert -> msg -> sig -> bool) (readable blank : cert -> bool)
+         (pre post : list (op cert msg sig)) (o : op cert msg sig) (init : metadata cert) (only : bool),
+    (match o with Lookup _ _ | Engine _ => True | _ => False end) ->
+    run_ops verify readable blank init only (pre ++ o :: post) = run_ops verify readable blank init only (pre ++ post).
+Proof. exact readonly_ops_vanish. Qed.
+Print Assumptions c03_receiver_readonly_ops.
 
 (* ---- source tie, translator v2: coq/gen/C03Src2.v is re-translated from the CURRENT source text on every run;
    each theorem: the translated function on the encoding of the model's input = the encoding of the model's
@@ -259,6 +314,18 @@ Theorem c03_source2_redirect_sig_check :
           end.
 Proof. exact src2_redirect_sig_check_is_model. Qed.
 Print Assumptions c03_source2_redirect_sig_check.
+
+(* CryptoBackendXmlSec1.validate_signature, the statements that build the --verify command line <-> the command line
+   of Model.verify_cmdline: for every backend object (whatever version its binary reports), certificate file and
+   type, node name and node id, --enabled-key-data is there with exactly raw-x509-cert *)
+Theorem c03_source2_verify_cmdline :
+  forall (bin cf ct nn : string) (nid : option string) (rest : list (string * pyval)) (tmp : pyval) (v : version),
+    src2_verify_cmdline (enc_backend bin rest) (PStr cf) (PStr ct) (PStr nn)
+      (match nid with Some i => PStr i | None => PNone end) tmp
+    = PList (verify_argv bin cf ct nn nid)
+    /\ cmd_confined (verify_argv bin cf ct nn nid) = key_data_confined (verify_cmdline v).
+Proof. exact src2_verify_cmdline_confined. Qed.
+Print Assumptions c03_source2_verify_cmdline.
 
 (* AuthnResponse._assertion, the signature step <-> fst . Model.accept for one signed element *)
 Theorem c03_source2_assertion_sig :
